@@ -35,8 +35,8 @@ class PackIntMod:
         
     def unpack(self, bits, pos):
         if self.bitlen()==0: return 0 # mod 1: the only value, encoded in zero bits
-        if isinstance(bits[pos],(LinComb,LinCombBool)):
-            # lincomb in: boundary checking
+        if any(isinstance(b,(LinComb,LinCombBool)) for b in bits[pos:pos+self.bitlen()]):
+            # lincomb in (any bit of the field): boundary checking
             ret = LinComb.from_bits(bits[pos:pos+self.bitlen()])
             ret.assert_lt(self.mod)
             return ret
